@@ -414,10 +414,15 @@ def judge_twin(workdir, case):
         client_apply(state_b, o)
     diffs = []
     config_differs = False
-    if "visible" not in state_a and "visible" not in state_b:
-        # protocol 1 marks invisible options by the value null (replies), false (initial message) or not at all
+    if case["version"] == 1:
+        # protocol 1 marks invisible options by the value null (replies), false (initial message) or not at all.
+        # A protocol-1 client only knows the values and ranges channels: the reply to an unsupported version (one of
+        # the offending lines of a mixed session) is built in the version-2+ layout and carries an empty `visible`
+        # object, which must not switch this normalisation off.
         keys = set(state_a.get("values", {})) | set(state_b.get("values", {}))
         for st in (state_a, state_b):
+            st.pop("visible", None)
+            st.pop("defaults", None)
             old = st.get("values", {})
             st["values"] = dict((k, False if old.get(k) is None else old[k]) for k in keys)
     for ch in CHANNELS:
